@@ -143,6 +143,9 @@ class MindsDBParser(Parser):
     def create_skill(self, p):
         params = p.kw_parameter_list
 
+        if 'type' not in params:
+            raise ParsingException("CREATE SKILL requires the parameter 'type'")
+
         return CreateSkill(
             name=p.identifier,
             type=params.pop('type'),
